@@ -25,6 +25,7 @@ type Env struct {
 	Pkg     *types.Package
 	Epoch   int
 	OldEpoch int
+	LocalSt *State // state supplying local variables when St is nil (old-state evaluation)
 	depth   int
 }
 
@@ -95,6 +96,18 @@ func (v *Verifier) resolveType(env *Env, text string) types.Type {
 			if p, ok := v.P.TPkgs[pn]; ok {
 				pkg = p
 				found = true
+			}
+		}
+		if !found && pn == env.Pkg.Name() {
+			found = true
+		}
+		if !found {
+			for _, sp := range v.P.Prog.AllPackages() {
+				if sp.Pkg.Name() == pn {
+					pkg = sp.Pkg
+					found = true
+					break
+				}
 			}
 		}
 		if !found {
@@ -299,11 +312,15 @@ func (v *Verifier) evalIdent(env *Env, name string) *Val {
 		}
 	}
 	// local cell by name
-	if env.X != nil && env.Fn != nil && env.St != nil && env.Fn == env.X.Fn {
+	lst := env.St
+	if lst == nil {
+		lst = env.LocalSt
+	}
+	if env.X != nil && env.Fn != nil && lst != nil && env.Fn == env.X.Fn {
 		var best *Cell
 		for a, c := range env.X.cellOf {
 			if a.Comment == name {
-				if _, live := env.St.Cells[c]; live {
+				if _, live := lst.Cells[c]; live {
 					if best == nil || a.Pos() < best.Site.Pos() {
 						best = c
 					}
@@ -311,13 +328,29 @@ func (v *Verifier) evalIdent(env *Env, name string) *Val {
 			}
 		}
 		if best != nil {
-			return env.St.Cells[best]
+			return lst.Cells[best]
 		}
 	}
 	// parameters of the function under verification (entry values)
 	if env.X != nil && env.X.Entry != nil && env.Fn == env.X.Fn {
 		if p, ok := env.X.Entry.Params[name]; ok {
 			return p
+		}
+	}
+	// captured variables of the closure under verification
+	if env.X != nil && env.X.Entry != nil && (env.Fn == env.X.Fn || env.Fn == nil) {
+		if c, ok := env.X.Entry.FreeCells[name]; ok {
+			if env.St != nil {
+				if cv, live := env.St.Cells[c]; live {
+					return cv
+				}
+			}
+			if cv, ok := env.X.Entry.OldCells[c]; ok {
+				return cv
+			}
+		}
+		if fv, ok := env.X.Entry.FreeVals[name]; ok {
+			return fv
 		}
 	}
 	if env.Pkg != nil {
@@ -417,6 +450,21 @@ func (v *Verifier) evalBinop(env *Env, e *Expr) *Val {
 	if a.Term == nil || b.Term == nil {
 		unsupportedf("operator %s on compound values", e.Op)
 	}
+	if a.Term.Sort == SReal || b.Term.Sort == SReal {
+		at, bt := a.Term, b.Term
+		if at.Sort == SInt {
+			at = toReal(at)
+		}
+		if bt.Sort == SInt {
+			bt = toReal(bt)
+		}
+		switch e.Op {
+		case "+", "-", "*":
+			return &Val{T: types.Typ[types.Float64], Term: mk(kApp, e.Op, SReal, at, bt)}
+		case "<", "<=", ">", ">=":
+			return boolVal(mk(kApp, e.Op, SBool, at, bt))
+		}
+	}
 	switch e.Op {
 	case "+":
 		return &Val{T: a.T, Term: Add(a.Term, b.Term)}
@@ -456,6 +504,9 @@ func (v *Verifier) evalCall(env *Env, e *Expr) *Val {
 			unsupportedf("old() used where no old state exists")
 		}
 		e2 := *env
+		if env.St != nil {
+			e2.LocalSt = env.St
+		}
 		e2.St = nil
 		e2.Heap = env.OldHeap
 		e2.Epoch = env.OldEpoch
@@ -512,7 +563,29 @@ func (v *Verifier) evalCall(env *Env, e *Expr) *Val {
 		}
 		return intVal(Select(hs.ghostArr("wgmine", SInt), r))
 	case "ncalls":
-		return intVal(hs.ghostInt("ncalls$" + args[0].Lit))
+		n := args[0].Lit
+		if args[0].Kind == "ident" {
+			n = args[0].Op
+		}
+		return intVal(hs.ghostInt("ncalls$" + n))
+	case "sret", "sarg":
+		// sret(LABEL, i, k): i-th result of the k-th call of the statically bound callee labelled LABEL
+		idx, _ := strconv.Atoi(args[1].Lit)
+		fam := fmt.Sprintf("G$%s$%s$%d", name, args[0].Op, idx)
+		srt, ok := heapSorts[fam]
+		if !ok {
+			srt = ArrSort(SInt, SInt)
+		}
+		_, es := arrParts(srt)
+		t := Select(hs.heapGet(fam, srt), arg(2).Term)
+		var ty types.Type = types.Typ[types.Int]
+		switch es {
+		case SBool:
+			ty = types.Typ[types.Bool]
+		case SStr:
+			ty = types.Typ[types.String]
+		}
+		return &Val{T: ty, Term: t}
 	case "allocated":
 		return boolVal(Select(hs.ghostArr("alloc", SBool), arg(0).Term))
 	case "fresh":
@@ -562,6 +635,58 @@ func (v *Verifier) evalCall(env *Env, e *Expr) *Val {
 		}
 		_, ok := env.St.Held[id]
 		return boolVal(BoolLit(ok))
+	case "boxed":
+		a := arg(0)
+		var ts []*Term
+		flatten(a, &ts)
+		return &Val{T: types.NewInterfaceType(nil, nil), Term: boxTerm(ts, a.T)}
+	case "isstring":
+		a := arg(0)
+		return boolVal(And(Neq(a.Term, IntLit(0)), Eq(dynType(a.Term), typeID(types.Typ[types.String]))))
+	case "unboxstring":
+		return &Val{T: types.Typ[types.String], Term: UF("unbox$string$", SStr, arg(0).Term)}
+	case "panicval":
+		l := args[0].Op
+		return &Val{T: types.NewInterfaceType(nil, nil), Term: Select(hs.heapGet("G$panicval$"+l, ArrSort(SInt, SInt)), arg(1).Term)}
+	case "unbox":
+		// unbox(v, "pkg.Type", "fieldpath"): the value of a field of the concrete value stored in interface v
+		a := arg(0)
+		tn := args[1].Lit
+		path := args[2].Lit
+		bt := v.namedByName(tn)
+		if bt == nil {
+			unsupportedf("unbox: unknown type %s", tn)
+		}
+		var ls []leafInfo
+		leaves(bt, "", &ls)
+		for _, l := range ls {
+			if l.Path == path {
+				return &Val{T: l.T, Term: UF("unbox$"+tn+"$"+path, l.Sort, a.Term)}
+			}
+		}
+		unsupportedf("unbox: type %s has no leaf %s", tn, path)
+	case "hasdyntype":
+		a := arg(0)
+		bt := v.namedByName(args[1].Lit)
+		if bt == nil {
+			unsupportedf("hasdyntype: unknown type %s", args[1].Lit)
+		}
+		return boolVal(And(Neq(a.Term, IntLit(0)), Eq(dynType(a.Term), typeID(bt))))
+	case "cancelled":
+		return boolVal(Select(hs.ghostArr("cancelled", SBool), arg(0).Term))
+	case "recvs":
+		return intVal(hs.ghostInt("recvs$" + exprText(args[0])))
+	case "sends":
+		return intVal(hs.ghostInt("sends$" + exprText(args[0])))
+	case "sent":
+		n := exprText(args[0])
+		return &Val{T: types.Typ[types.UnsafePointer], Term: Select(hs.heapGet("G$sent$"+n, ArrSort(SInt, SInt)), arg(1).Term)}
+	case "real":
+		return &Val{T: types.Typ[types.Float64], Term: toReal(arg(0).Term)}
+	case "trunc":
+		return intVal(truncReal(arg(0).Term))
+	case "errtext":
+		return &Val{T: types.Typ[types.String], Term: UF("error$Error", SStr, arg(0).Term)}
 	case "dyntype":
 		return intVal(dynType(arg(0).Term))
 	case "typeid":
